@@ -114,7 +114,9 @@ def canon_real_match(m, pindex, sindex, restrict=False):
     restrict=True (sub-match that inherited its parent's map): keep only this pattern's node pairs and
     the student nodes inside the searched subtree; symbol tables keep every identifier."""
     def sp(node):
-        return sindex.get(id(node), ("outside",)) if restrict else sindex[id(node)]
+        # a node that is not in the searched (sub)tree: legitimate only for what a sub-match inherited from its
+        # parent; anywhere else the path ("outside",) makes the comparison / the embedding check fail
+        return sindex.get(id(node), ("outside",))
     maps = sorted((pindex[id(k)], sp(v)) for k, v in m.mappings.items() if not restrict or id(k) in pindex)
     exps = {k: sp(v) for k, v in m.exp_table.items()}
     binds = {}
@@ -315,7 +317,10 @@ class RealRun:
         if raw:
             # recover the matcher's own pattern root from a mapping key that belongs to THIS pattern
             inherited = set() if parent is None or not use_previous else {id(k) for k in parent.mappings}
-            k = next(k for k in raw[0].mappings if id(k) not in inherited)
+            k = next((k for k in raw[0].mappings if id(k) not in inherited), None)
+            if k is None:
+                self.exc = "match-pairs-no-pattern-node"     # an AstMap that does not mention the pattern at all
+                return
             while k.parent is not None:
                 k = k.parent
             pindex = index_of(k)
